@@ -6,7 +6,7 @@ sys.path.insert(0, os.path.dirname(os.path.dirname(os.path.abspath(__file__))))
 import translate_suffix, vlib
 
 PID = "C18"
-TARGETS = ["Run.vo", "Suffix_proofs.vo"]
+TARGETS = ["Run.vo", "Suffix_proofs.vo", "NonVacuous/C18.vo"]
 IMPORTS = "From Coq Require Import String.\nFrom VF Require Import Base Show Gen_Errors Lexer Suffix Run.\nOpen Scope string_scope."
 ALLOWED_AXIOMS = []
 PROFILES = ["debug"]
@@ -47,7 +47,19 @@ def scpi_meaning(q, suf: bytes):
 
 
 def tables():
-    return translate_suffix.parse(vlib.REPO)
+    """the tables the model uses: read back from the GENERATED coq/gen/Gen_Suffix.v"""
+    import re
+    txt = open(os.path.join(vlib.COQ, "gen", "Gen_Suffix.v")).read()
+    def ents(body):
+        out = []
+        for sp, unit in re.findall(r'\(\[((?:\[[\d; ]*\]%N(?:; )?)+)\], "(\w+)"\)', body):
+            out.append(([bytes(int(x) for x in re.findall(r"\d+", b)).decode() for b in re.findall(r"\[([\d; ]*)\]%N", sp)], unit))
+        return out
+    a = txt.index("Definition suffix_tables"); b = txt.index("Definition log_tables")
+    units = [(q, base, ents(body)) for q, base, body in re.findall(r'\("(\w+)", "(\w+)", \[(.*?)\]\)(?:;|\n\])', txt[a:b])]
+    logs = [(q, ents(body)) for q, body in re.findall(r'\("(\w+)", \[(.*?)\]\)(?:;|\n\])', txt[b:])]
+    if not units or not logs: raise RuntimeError("coq/gen/Gen_Suffix.v not understood")
+    return units, logs
 
 
 def mk(kind, q, txt, note="gen"):
